@@ -291,7 +291,10 @@ impl DeserializableType for Blob {
     fn reinterpret_cast(buffer: &[u8]) -> SerializationResult<(Self::Ref<'_>, usize)> {
         let (len_varint, offset) = VarInt::from_encoded_bytes(buffer)?;
         let len_usize: usize = len_varint.into();
-        let total_size = offset + len_usize;
+        // A negative length turns into a huge `usize`: the sum must not wrap around.
+        let total_size = offset
+            .checked_add(len_usize)
+            .ok_or(SerializationError::UnexpectedEof)?;
 
         if buffer.len() < total_size {
             return Err(SerializationError::UnexpectedEof);
